@@ -1,7 +1,8 @@
 """E3 sched, step 1: shared-state access events of each thread's workload, read off the real byte-code.
 
 Each workload (vf.oracles.c16.workload: own Environment, own program, k evaluations) runs ALONE, from the scenario's
-initial state, under sys.settrace with opcode events.  Every 'line' event of $VERIF_REPO/src/celpy/* or of exec-ed
+initial state, with LINE and INSTRUCTION events switched on (sys.monitoring, the 3.12 layer underneath sys.settrace /
+f_trace_opcodes; used directly because it can be limited to celpy code objects).  Every line event of $VERIF_REPO/src/celpy/* or of exec-ed
 "<string>" code opens a *step* (the unit a forced replay can delay); every executed instruction that reads or writes a
 namespace is attributed to the thread's most recent step, so a store that happens after a nested call returns belongs
 to the step in which it really executes.  Namespaces are identified by object identity:
@@ -72,39 +73,30 @@ def ns_id(space):
 
 class Extractor:
     def __init__(self, keep):
-        self.steps, self.cur, self.occ, self.hist = [], None, {}, {}
+        self.steps, self.cur, self.occ, self.hist = [], None, {}, []
         self.stats = collections.Counter()
         self.keep = keep                       # strong references: identities stay unique across the solo runs
         self.funcs = set()
 
-    # ---- trace functions
-    def glob(self, frame, event, arg):
-        if not oracle.traced(frame.f_code):
-            return None
-        frame.f_trace_opcodes = True
-        return self.local
+    # ---- event callbacks
+    def line(self, frame, code, lineno):
+        key = oracle.gate_key(code, lineno)
+        n = self.occ.get(key, 0)
+        self.occ[key] = n + 1
+        self.cur = {"key": key, "occ": n, "acc": []}
+        self.steps.append(self.cur)
+        self.stats["lines"] += 1
 
-    def local(self, frame, event, arg):
-        if event == "line":
-            key = oracle.gate_key(frame.f_code, frame.f_lineno)
-            n = self.occ.get(key, 0)
-            self.occ[key] = n + 1
-            self.cur = {"key": key, "occ": n, "acc": []}
-            self.steps.append(self.cur)
-            self.stats["lines"] += 1
-        elif event == "opcode":
-            try:
-                self.opcode(frame)
-            except Exception as ex:  # noqa: BLE001  - resolution must never disturb the workload
-                self.stats[f"resolver-error:{type(ex).__name__}"] += 1
-        elif event == "return":
-            self.hist.pop(frame, None)
-        return self.local
+    def instruction(self, frame, code, offset):
+        try:
+            self.opcode(frame, code, offset)
+        except Exception as ex:  # noqa: BLE001  - resolution must never disturb the workload
+            self.stats[f"resolver-error:{type(ex).__name__}"] += 1
 
     # ---- resolution of `name(.attr)*` chains ending at instruction index k, all executed back to back
     def chain(self, frame, ins, k, h, depth):
         """value produced by instruction k if it and its feeders are simple loads executed consecutively"""
-        if len(h) <= depth or h[-1 - depth] != k:
+        if len(h) <= depth or h[-1 - depth] != (id(frame), k):
             return MISSING
         i = ins[k]
         op, name = i.opname, i.argval
@@ -122,14 +114,13 @@ class Extractor:
             return MISSING if base is MISSING else static_attr(base, name)[1]
         return MISSING
 
-    def opcode(self, frame):
-        code = frame.f_code
+    def opcode(self, frame, code, offset):
         ins, index = table(code)
-        k = index.get(frame.f_lasti)
+        k = index.get(offset)
         if k is None:
             return
-        h = self.hist.setdefault(frame, [])
-        h.append(k)
+        h = self.hist                          # last executed (frame, instruction) pairs of this thread
+        h.append((id(frame), k))
         del h[:-8]
         op = ins[k].opname
         name = ins[k].argval
@@ -185,13 +176,8 @@ class Extractor:
 
 def trace(fn, keep):
     ex = Extractor(keep)
-    sys._getframe().f_trace_opcodes = True     # 3.12: arms opcode events for the settrace call that follows
-    sys.settrace(ex.glob)
-    try:
+    with oracle.Monitor(ex.line, ex.instruction):
         r = fn()
-    finally:
-        sys.settrace(None)
-        sys._getframe().f_trace_opcodes = False
     return r, ex
 
 
